@@ -26,6 +26,14 @@ CHECKS = {
              text="Exhaustive TLC check of CCall.tla for n in 0..3 functions incl. nil entries, all outcome combinations and caller cancellation; the caller's step right after it released the lock is separately schedulable in the real code (verifhook.Unlocked park), so every completion timing relative to the caller's bookkeeping is replayed and judged by CCallP.", ref="§3 C17"),
  "C18": dict(engine="conc", technique="TLA+ monitor ConcQueueP checked by TLC on ConcQueue.tla (Enqueue loop, worker pop-or-retire section, WaitIdle/WatchState loops) and on traces of the real queue under TLC edge-cover + seeded random schedules with harness-owned jobs",
              text="Limit, exactly-once, FIFO start order for limit 1, (queued,running) pairs and WaitIdle's 'idle means done' as conditions of ConcQueueP evaluated by TLC on every recorded event of controlled executions (limits 0/1/2, batches, two producers) and as invariants of the X spec.", ref="§3 C18"),
+ "C06": dict(engine="keyed", technique="TLA+ reference model KeyedP (key set, pending removals, failed flags, references, virtual time) evaluated by TLC on settled sequential histories of the real Keyed/KeyedRefCount (TLC-enumerated + seeded random, virtual-time release delays) and on the X spec Keyed.tla",
+             text="Deterministic reference model: every return value (existed/added/removed/data, GetKeys, GetKey, AddKeyRef, Release, RemoveKey) of every call of TLC-generated and random operation histories over 2-3 keys, with and without release delay, must equal the model's; time is virtual (ticks of 4/7 against a delay of 10, never on a deadline).", ref="§3 C06"),
+ "C07": dict(engine="keyed", technique="TLA+ monitor KeyedP (per-key overlap, cancel-on-removal, retry obligations) checked by TLC on Keyed.tla and on traces of the real Keyed stepped through TLC edge-cover schedules with timer callbacks as separate steps",
+             text="Per-key at-most-one-instance within a membership epoch, contexts cancelled after removal/ClearContext, nothing started afterwards, and an errored routine re-run after its backoff whatever non-restarting calls intervene; evaluated by TLC on controlled executions (routine exit bookkeeping, removal and retry timer callbacks are separately schedulable steps) and as invariants of Keyed.tla.", ref="§3 C07"),
+ "C19": dict(engine="codec", level="exploration", technique="TLA+ expectation specs (Padding, CommonPrefix, PrngReader; CodecP) used as input enumerators (TLC state spaces = input boxes) and as oracle: TLC recomputes the expected result for every recorded (input, output|error|panic) event of the real functions",
+             text="Pure functions: TLC enumerates the input boxes (lengths around the 32-byte boundaries, spare capacity, high bytes, all chunkings of reads) and, as trace validator, recomputes each expectation in TLA+; seeded random inputs up to 4096 bytes are judged the same way. Exploration level: no state machine worth model checking.", ref="§3 C19"),
+ "C20": dict(engine="seqio", technique="TLA+ reference models (IoSeek, IoSizer, IoCloser, IoProxy, Unique; SeqioP step function) checked by TLC: observed = expected after every call of TLC-enumerated and random call sequences replayed on the real helpers; Close-vs-Read and the proxy pumps under the controller",
+             text="Reference-model conformance on every operation history: all call sequences up to length 2-3 over small argument domains enumerated by TLC plus seeded random ones, each replayed on the real object with the result compared by TLC; iocloser Close/Read interleavings and ioproxy pumps are stepped by the controller.", ref="§3 C20"),
 }
 NOT_YET = "not built yet in this session (work in progress; see DESIGN.md §6 build order)"
 
@@ -54,6 +62,9 @@ m = {
    {"name": "csync", "path": "tools/fam_csync.py", "serves_properties": ["C01", "C02"], "kind_free_text": "TLC model checking of specs/csync + controlled replay/trace validation (harness/drivers/csync.go)"},
    {"name": "ccall", "path": "tools/fam_ccall.py", "serves_properties": ["C17"], "kind_free_text": "TLC model checking of specs/ccall + controlled replay/trace validation (harness/drivers/ccall.go)"},
    {"name": "conc", "path": "tools/fam_conc.py", "serves_properties": ["C18"], "kind_free_text": "TLC model checking of specs/conc + controlled replay/trace validation (harness/drivers/conc.go)"},
+   {"name": "keyed", "path": "tools/fam_keyed.py", "serves_properties": ["C06", "C07"], "kind_free_text": "TLC model checking of specs/keyed + sequential-history and controlled replay/trace validation (harness/drivers/keyed.go)"},
+   {"name": "codec", "path": "tools/fam_codec.py", "serves_properties": ["C19"], "kind_free_text": "TLC-enumerated input vectors + TLA+ expectation oracle (harness/drivers/codec.go)"},
+   {"name": "seqio", "path": "tools/fam_seqio.py", "serves_properties": ["C20"], "kind_free_text": "TLA+ reference models for the sequential helpers (harness/drivers/seqio.go)"},
    {"name": "race", "path": "tools/fam_race.py", "serves_properties": ["C13"], "kind_free_text": "free-running client programs under the Go race detector (harness/race_test.go)"},
    {"name": "routine", "path": "tools/fam_routine.py", "serves_properties": ["C04", "C05", "C14"], "kind_free_text": "TLC model checking of specs/routine + controlled replay/trace validation (harness/drivers/routine.go)"},
  ],
